@@ -20,21 +20,19 @@ From Coq Require Import Reals.
 From PyOrb.lib Require Import PyReal.
 Open Scope R_scope.
 
-Definition d2r (x : R) : R := x * (PI / 180).
-
 (* degrees *)
 Definition L_AA (n : R) : R := 280460 / 1000 + 9856474 / 10000000 * n.
 Definition g_AA (n : R) : R := 357528 / 1000 + 9856003 / 10000000 * n.
 Definition lambda_AA (n : R) : R :=
-  L_AA n + 1915 / 1000 * sin (d2r (g_AA n)) + 20 / 1000 * sin (2 * d2r (g_AA n)).
+  L_AA n + 1915 / 1000 * sin (deg2rad (g_AA n)) + 20 / 1000 * sin (2 * deg2rad (g_AA n)).
 Definition eps_AA (n : R) : R := 23439 / 1000 - 4 / 10000000 * n.
 (* radians *)
 Definition alpha_AA (n : R) : R :=
-  atan2 (cos (d2r (eps_AA n)) * sin (d2r (lambda_AA n))) (cos (d2r (lambda_AA n))).
-Definition delta_AA (n : R) : R := asin (sin (d2r (eps_AA n)) * sin (d2r (lambda_AA n))).
+  atan2 (cos (deg2rad (eps_AA n)) * sin (deg2rad (lambda_AA n))) (cos (deg2rad (lambda_AA n))).
+Definition delta_AA (n : R) : R := asin (sin (deg2rad (eps_AA n)) * sin (deg2rad (lambda_AA n))).
 (* AU *)
 Definition R_AA (n : R) : R :=
-  100014 / 100000 - 1671 / 100000 * cos (d2r (g_AA n)) - 14 / 100000 * cos (2 * d2r (g_AA n)).
+  100014 / 100000 - 1671 / 100000 * cos (deg2rad (g_AA n)) - 14 / 100000 * cos (2 * deg2rad (g_AA n)).
 
 (* unit vector (equatorial frame) of the point of the ecliptic at longitude l, obliquity e *)
 Definition ecl_x (l e : R) : R := cos l.
